@@ -190,3 +190,42 @@ func ZZReadWriteReopen(n int) {
 	}
 	vReach("end")
 }
+
+// ZZReadWriteDamage (C10): the real newReadWriteSegment reopening a segment with a NON-ZERO base offset whose
+// record d (symbolic) had one payload byte damaged on disk, with a symbolic absolute commit offset. Damage at
+// or below the commit offset is reported as an error; damage above it is discarded together with what
+// follows (the log ends at d-1) and never costs a committed entry — unless the damaged record still carries a
+// matching checksum (collision: the uninterpreted CRC allows it; then nothing can be said).
+func ZZReadWriteDamage(n int) {
+	zzFiles = map[string][]byte{}
+	zzHandles = map[*os.File]string{}
+	dir := vTempDir()
+	base := int64(5)
+	s1, err := newReadWriteSegment(dir, base, 128, 0, &zzCommit{off: base - 1})
+	vAssert("create-ok", err == nil)
+	for i := 0; i < n; i++ {
+		vAssert("append-ok", s1.Append(base+int64(i), vBytes("p", 2)) == nil)
+	}
+	_ = s1.Flush()
+	path := segmentPath(dir, base) + ".txnx"
+	content := zzGetFile(path)
+	d := vChoice("damaged-record", n)
+	pos := 14*d + 12 // first payload byte of record d (12-byte header + 2-byte payload per record)
+	dam := append([]byte(nil), content...)
+	dam[pos] = vByte("damage")
+	vAssume(dam[pos] != content[pos])
+	zzPutFile(path, dam)
+	commit := base - 1 + int64(vChoice("committed", n+1)) // absolute: base-1 .. base+n-1
+	s2, err := newReadWriteSegment(dir, base, 128, 0, &zzCommit{off: commit})
+	if err != nil {
+		vReach("reported")
+		vAssert("only-damage-to-a-committed-entry-is-an-error", base+int64(d) <= commit)
+	} else if s2.LastOffset() >= base+int64(d) {
+		vReach("collision-accepted")
+	} else {
+		vReach("discarded")
+		vAssert("damage-to-a-committed-entry-is-reported-not-dropped", base+int64(d) > commit)
+		vAssert("log-ends-right-before-the-damage", s2.LastOffset() == base+int64(d)-1)
+	}
+	vReach("end")
+}
